@@ -32,10 +32,18 @@ type vfCell struct {
 	Burst    int // number of messages queued around the failing one (msg site)
 	FailPos  int // position of the failing message in the burst (0-based)
 	Hook     string // "" | prerestart-err | prerestart-panic | restarted-err | restarted-panic | prelaunch-err | prelaunch-panic
+	// Respawn: before the failure the supervisor kills the failing actor's sibling and re-creates it under the same name in
+	// one handler (so the old sibling's death notice is stale when the supervisor gets to it). The re-created sibling is a
+	// child like any other: a one-for-all decision reaches it, a one-for-one decision leaves it alone.
+	Respawn bool
 }
 
 func (c vfCell) String() string {
-	return fmt.Sprintf("shape=%d site=%s mode=%d L1=%s/%s L2=%s/%s L3=%s provider=%v burst=%d@%d hook=%s", c.Shape, c.Site, c.Mode, c.D1, vfStratName(c.S1), vfDecName(c.D2), vfStratName(c.S2), vfDecName(c.D3), c.Provider, c.Burst, c.FailPos, c.Hook)
+	s := fmt.Sprintf("shape=%d site=%s mode=%d L1=%s/%s L2=%s/%s L3=%s provider=%v burst=%d@%d hook=%s", c.Shape, c.Site, c.Mode, c.D1, vfStratName(c.S1), vfDecName(c.D2), vfStratName(c.S2), vfDecName(c.D3), c.Provider, c.Burst, c.FailPos, c.Hook)
+	if c.Respawn {
+		s += " sibling-respawned-under-the-same-name"
+	}
+	return s
 }
 
 func vfDecName(d vivid.SupervisionDecision) string {
@@ -264,6 +272,12 @@ func vfRunCell(c vfCell, res *vfCellResult) {
 	}
 	w.wait()
 
+	respawned := ""
+	if c.Respawn {
+		respawned = map[int]string{2: "B", 3: "B", 4: "G2"}[c.Shape]
+		w.tellName(t.parent[t.fail], &vfCmd{Op: "respawn", Arg: t.specs[respawned]})
+		w.settle(time.Millisecond)
+	}
 	failID := -1
 	var burstIDs []int
 	var gate *vfGate
@@ -407,6 +421,27 @@ func vfRunCell(c vfCell, res *vfCellResult) {
 		}
 		key := cat
 		got := fmt.Sprintf("OnLaunch=%d OnKill=%d OnKilled(self)=%d restartedEv=%d killedEv=%d pausedEv=%d alive=%v probe(processed=%d,dl=%d)", nL, nK, nDead, nRestarted, nKilledEv, nPaused, alive, probeProcessed, probeDL)
+		if n == respawned || (respawned != "" && t.parent[n] == respawned) {
+			// the sibling was killed and re-created once before the failure (its children with it): one complete life more
+			// than the model's count; what the decision does to the new incarnation is what counts
+			okc := false
+			switch cat {
+			case "untouched", "resumed":
+				okc = nL == 2 && nKilledEv == 1 && nRestarted == 0 && alive && probeProcessed == 1 && probeDL == 0
+			case "restarted":
+				okc = nL == 3 && nKilledEv == 1 && nRestarted == 1 && alive && probeProcessed == 1 && probeDL == 0
+			case "respawned":
+				okc = nL == 3 && nKilledEv == 2 && nRestarted == 0 && alive && probeProcessed == 1 && probeDL == 0
+			case "stopped":
+				okc = nL == 2 && nKilledEv == 2 && !alive && probeProcessed == 0 && probeDL == 1
+			default:
+				okc = true
+			}
+			if !okc {
+				add("c08-decision-misses-recreated-child", cat, "%s was killed and re-created under the same name before the failure; as a child of the supervisor the decision should leave it %s, observed: %s", n, cat, got)
+			}
+			continue
+		}
 		switch cat {
 		case "untouched", "resumed":
 			if nL != 1 || nK != 0 || nDead != 0 || nRestarted != 0 || nKilledEv != 0 || !alive {
@@ -607,6 +642,23 @@ func vfEnumerateCells() []vfCell {
 							}
 						}
 					}
+				}
+			}
+		}
+	}
+	// a sibling killed and re-created under the same name before the failure
+	for _, shape := range []int{2, 3, 4} {
+		for _, s1 := range []int{vfStratOne, vfStratAll} {
+			for _, d1 := range vfAllDecisions {
+				base := vfCell{Shape: shape, Site: "msg", D1: d1, S1: s1, Burst: 4, FailPos: 1, Respawn: true}
+				if !d1.IsEscalate() {
+					cells = append(cells, base)
+					continue
+				}
+				for _, d2 := range []vivid.SupervisionDecision{vivid.SupervisionDecisionRestart, vivid.SupervisionDecisionStop, vivid.SupervisionDecisionResume} {
+					c2 := base
+					c2.S2, c2.D2 = vfStratAll, d2
+					cells = append(cells, c2)
 				}
 			}
 		}
